@@ -1,0 +1,7 @@
+//go:build !verif
+
+package redisemu
+
+// verifPoint is a schedule/crash point used by the external verification
+// harness. In a normal build it is an empty function the compiler inlines away.
+func verifPoint(name string, id int64) {}
